@@ -341,6 +341,10 @@ pub struct MMsk {
     pub secrets: BTreeMap<MRight, MChain>,
     /// Key handles whose identifier this MSK knows.
     pub known_users: BTreeSet<u64>,
+    /// Tracing epoch: number of times the tracing level of this MSK was raised. A key whose
+    /// identifier was made in another epoch gets a new identifier at its next refresh (the old
+    /// one is forgotten). Registration tokens are `kid | epoch << 48` (see `MUsk::token`).
+    pub tl: u32,
     pub next_ident: Ident,
     pub next_rev: Rev,
     /// Every attribute identity that ever existed with the id the SUT gave it.
@@ -363,6 +367,8 @@ pub struct MUsk {
     pub hybrid: BTreeMap<MRight, bool>,
     /// Refreshed against an MSK state that was later rolled back: further refresh unspecified.
     pub unspecified: bool,
+    /// Tracing epoch in which the identifier of this key was made.
+    pub tl: u32,
 }
 
 #[derive(Clone, Debug, PartialEq, Eq)]
@@ -588,8 +594,9 @@ impl MMsk {
         if !t.iter().all(|r| self.secrets.contains_key(r)) {
             return Err(());
         }
-        self.known_users.insert(kid);
+        self.known_users.insert(kid | (self.tl as u64) << 48);
         Ok(MUsk {
+            tl: self.tl,
             kid,
             version: 0,
             rights: t
@@ -606,7 +613,7 @@ impl MMsk {
 
     /// Refresh of an issued, untampered key. `Err` iff this MSK does not know the identifier.
     pub fn refresh(&self, usk: &MUsk, keep: bool) -> Result<MUsk, ()> {
-        if !self.known_users.contains(&usk.kid) {
+        if !self.known_users.contains(&usk.token()) {
             return Err(());
         }
         let mut rights = BTreeMap::new();
@@ -627,6 +634,7 @@ impl MMsk {
             hybrid.insert(r.clone(), m.hybrid);
         }
         Ok(MUsk {
+            tl: usk.tl,
             kid: usk.kid,
             version: usk.version + 1,
             rights,
@@ -662,6 +670,11 @@ impl MMpk {
 }
 
 impl MUsk {
+    /// What the MSK records for this key (the handle, qualified by the epoch of its identifier).
+    pub fn token(&self) -> u64 {
+        self.kid | (self.tl as u64) << 48
+    }
+
     pub fn opens(&self, enc: &MEnc) -> bool {
         enc.targets
             .iter()
